@@ -20,6 +20,19 @@ const SHAPES = {
   arrMem: { src: '={[o.p, o.q.r, ["m-1"]]}', value: (e) => e.bound.o.p, arg: (e) => e.bound.o.q.r, mods: ['m-1'], array: true },
   str:    { src: '="str"', value: () => 'str' },
   absent: { src: '', novalue: true },
+  // JSX attribute strings are not JavaScript strings: a backslash is a backslash, entities are decoded, and the
+  // literal may span lines (for which both the verbatim text and the JSX-normalised text are accepted)
+  strBsl: { narrow: true, src: '="a\\nb"', value: () => 'a\\nb' },
+  strEnt: { narrow: true, src: '="a&amp;b&quot;"', value: () => 'a&b"' },
+  strSq:  { narrow: true, src: "='a\"b'", value: () => 'a"b' },
+  strNL:  { narrow: true, src: '="a\n   b"', value: () => 'a\n   b', valueAlt: () => 'a b' },
+  // semantically transparent wrappers (.tsx) around the value, or around elements of the array form
+  xNN:    { src: '={x!}', value: (e) => e.bound.x, ts: true },
+  xAs:    { src: '={x as any}', value: (e) => e.bound.x, ts: true },
+  xParen: { src: '={(x)}', value: (e) => e.bound.x, ts: true },
+  callSat:{ src: '={f() satisfies any}', value: (e) => 'fres' + e.variant, ts: true },
+  arrElNN:{ src: "={[x!, 'a2' as string]}", value: (e) => e.bound.x, arg: () => 'a2', array: true, ts: true },
+  arrElAs:{ src: "={[(x as any), (dyn)!, ['m1']]}", value: (e) => e.bound.x, arg: (e) => e.bound.dyn, mods: ['m1'], array: true, ts: true },
 };
 const CO_ATTRS = ['id', 'clsD', 'sp1', 'onClick1', 'key'];
 const CO_CHILDREN = ['none', 'ta', 'bx', 'el'];
@@ -43,10 +56,12 @@ function unjudged(d) {
 function* directives(full) {
   const names = full ? Object.keys(NAMES) : ['v-foo', 'vFooBar', 'v-show'];
   for (const name of names) for (const arg of [false, true]) for (const mods of Object.keys(MODS)) for (const shape of Object.keys(SHAPES)) {
+    // wrapped shapes: only with the full grammar in small contexts, and with the core names
+    if ((SHAPES[shape].ts || SHAPES[shape].narrow) && (!full || !['v-foo', 'vFooBar', 'v-show'].includes(name) || mods === 'ab')) continue;
     const d = { name, arg, mods, shape };
     if (!abstainDir(d)) yield d;
   }
-  for (const special of ['v-html', 'v-text', 'vHtml']) for (const shape of ['x', 'call', 'str']) yield { special, shape };
+  for (const special of ['v-html', 'v-text', 'vHtml']) for (const shape of ['x', 'call', 'str', 'strBsl', 'strEnt', 'strSq', 'strNL']) yield { special, shape };
 }
 
 function* contexts(full) {
@@ -93,10 +108,10 @@ function render(c, withDir) {
 
 function requests(c) {
   const src = E.PRELUDE + `__out.mk = () => (${render(c, true)});\n__out.base = () => (${render(c, false)});\n`;
-  return [{ src, want: ['eval'], opts: '{}' }];
+  return [{ src, ts: !!SHAPES[c.d.shape].ts, want: ['eval'], opts: '{}' }];
 }
 
-function expectedBindings(c, env) {
+function expectedBindings(c, env, alt) {
   const out = [];
   const bar = { dir: 'resolvedDir:bar', value: env.bound.y, arg: undefined, modifiers: {} };
   const rnSame = c.d.special ? null : NAMES[c.d.name];
@@ -111,7 +126,7 @@ function expectedBindings(c, env) {
     const u = unjudged(c.d);
     out.push({
       dir: rn === '@vShow' ? 'vue:vShow' : 'resolvedDir:' + rn,
-      value: u.value ? '«unjudged»' : s.value(env),
+      value: u.value ? '«unjudged»' : (alt && s.valueAlt ? s.valueAlt(env) : s.value(env)),
       arg: u.arg ? '«unjudged»' : c.d.arg ? 'arg' : s.arg ? s.arg(env) : undefined,
       modifiers: u.mods ? '«unjudged»' : mods,
     });
@@ -141,13 +156,16 @@ function judge(c, resps) {
     const got = (o && o.dirs) || [];
     // the value of a value-less directive is not specified: mask it at the directive's own position only
     eb.forEach((x, i) => { for (const k of ['value', 'arg', 'modifiers']) if (x[k] === '«unjudged»' && got[i]) got[i][k] = '«unjudged»'; });
-    const d = diff(eb, got);
+    let d = diff(eb, got);
+    if (d && SHAPES[c.d.shape].valueAlt) d = diff(canonValue(expectedBindings(c, env, true), ctx, []), got);
     if (d) viol.push({ clause: 'bindings', diff: 'dirs' + diffClass(d), msg: `directive bindings differ at ${d.path}`, expected: eb, observed: got });
     // other props / children undisturbed (differential against the same element without the directive)
     const eProps = ob && ob.props ? Object.assign({}, ob.props) : {};
     if (c.d.special) {
       const key = /html/i.test(c.d.special) ? 'innerHTML' : 'textContent';
       eProps[key] = canonValue(SHAPES[c.d.shape].value(env), ctx, []);
+      const sh = SHAPES[c.d.shape];
+      if (sh.valueAlt && o && o.props && o.props[key] === sh.valueAlt(env)) eProps[key] = sh.valueAlt(env);
     }
     const oProps = (o && o.props) || {};
     const dp = diff(eProps, oProps);
